@@ -137,7 +137,7 @@ def w_schedules(ctx: core.Ctx, arg):
     rng = ctx.rng('sched', arg['i'])
     for hno in range(arg['n']):
         mdib_file = MDIB_FILES[(arg['i'] + hno) % len(MDIB_FILES)]
-        world = World(mdib_file, role_provider=False, async_mgr=(hno % 3 == 1))
+        world = World(mdib_file, role_provider=False, async_mgr=(hno % 3 == 1), contextstates_in_getmdib=((arg['i'] + hno) % 4 != 3))
         mdib = world.mdib
         hist = History(mdib)
         consumer, cm = world.add_consumer(with_mdib=True)
@@ -275,12 +275,18 @@ def w_schedules(ctx: core.Ctx, arg):
 
 def _reload(ctx, world, net, cm, mon, hist, rng, commit_some, held, inflight, label):
     """application reload; optionally notifications arrive while the GetMdib response is in flight."""
-    injected = {'done': False}
+    injected = {'GetMdib': False, 'GetContextStates': False}
 
     def observer(entry):
-        if injected['done'] or entry.netloc == net.netloc or entry.body is None or b'GetMdib' not in entry.body[:4000] or b'GetMdibResponse' in entry.body[:4000]:
+        if entry.netloc == net.netloc or entry.body is None:
             return
-        injected['done'] = True
+        head = entry.body[:4000]
+        which = ('GetMdib' if (b':GetMdib' in head or b'<GetMdib' in head) and b'GetMdibResponse' not in head else
+                 'GetContextStates' if b'GetContextStates' in head and b'GetContextStatesResponse' not in head and b'Action>' in head else None)
+        if which is None or injected[which]:
+            return
+        injected[which] = True
+        ctx.count(f'reload.inflight_point.{which}')
         # the provider has produced the GetMdib response (entry.response); before the consumer sees it the provider commits further
         # transactions whose notifications (and some held-back older ones) reach the consumer from another thread
         commit_some(rng.randrange(0, 6))
